@@ -25,27 +25,27 @@ def g(f, **kw):
 PROPS = {
     "C01": {
         "families": [
-            fam("dag", g(gen.fam_dag), 250, 6000, rule="distinct (topology, shapes, flags) of random programs with fan-out >= 2 and a tracked leaf; plus self-product chains to depth 45/60"),
-            fam("dag-float", g(gen.fam_dag, mode="float"), 120, 3000, mode="float", rule="as dag, non-ring operations included"),
-            fam("customlog", g(gen.fam_customlog), 80, 2000, rule="distinct Array::op programs"),
-            fam("ewise-grad", g(gen.fam_ewise, grads=True), 60, 1500, rule="distinct (op, shape pair)"),
+            fam("dag", g(gen.fam_dag), 250, 6000, view="values", rule="distinct (topology, shapes, flags) of random programs with fan-out >= 2 and a tracked leaf; plus self-product chains to depth 45/60"),
+            fam("dag-float", g(gen.fam_dag, mode="float"), 120, 3000, mode="float", view="values", rule="as dag, non-ring operations included"),
+            fam("customlog", g(gen.fam_customlog), 80, 2000, view="values", rule="distinct Array::op programs"),
+            fam("ewise-grad", g(gen.fam_ewise, grads=True), 60, 1500, view="values", rule="distinct (op, shape pair)"),
         ],
         "assumptions": [F64_NOTE, SEED_NOTE, "user closures given to Array::op are lawful (the harness's are, by inspection and by correspondence)"],
     },
     "C02": {
         "families": [
-            fam("ewise-grad", g(gen.fam_ewise, grads=True), 80, 2000, rule="distinct (op, broadcast shape pair, number of uses)"),
-            fam("ewise-grad-float", g(gen.fam_ewise, mode="float", grads=True), 60, 1500, mode="float", rule="as above incl. div"),
-            fam("matmul-grad", g(gen.fam_matmul, grads=True), 60, 1500, rule="distinct (leading dims, sizes, transposes, additive term)"),
-            fam("conv-grad", g(gen.fam_conv, grads=True), 150, 2500, rule="distinct (batch, depth, image, filters, strides); overlapping and uneven strides tagged"),
-            fam("reduce-grad", g(gen.fam_reduce, grads=True), 0, 0, rule="distinct (shape, k) / reshape targets / element maps, non-uniform seeds"),
-            fam("reduce-grad-float", g(gen.fam_reduce, mode="float", grads=True), 0, 0, mode="float", rule="as above, all element maps, exponents in [-3,3]"),
+            fam("ewise-grad", g(gen.fam_ewise, grads=True), 80, 2000, view="values", rule="distinct (op, broadcast shape pair, number of uses)"),
+            fam("ewise-grad-float", g(gen.fam_ewise, mode="float", grads=True), 60, 1500, mode="float", view="values", rule="as above incl. div"),
+            fam("matmul-grad", g(gen.fam_matmul, grads=True), 60, 1500, view="values", rule="distinct (leading dims, sizes, transposes, additive term)"),
+            fam("conv-grad", g(gen.fam_conv, grads=True), 150, 2500, view="values", rule="distinct (batch, depth, image, filters, strides); overlapping and uneven strides tagged"),
+            fam("reduce-grad", g(gen.fam_reduce, grads=True), 0, 0, view="values", rule="distinct (shape, k) / reshape targets / element maps, non-uniform seeds"),
+            fam("reduce-grad-float", g(gen.fam_reduce, mode="float", grads=True), 0, 0, mode="float", view="values", rule="as above, all element maps, exponents in [-3,3]"),
         ],
         "assumptions": [F64_NOTE, SEED_NOTE, "x = 0 with an exponent below 1 is outside powf's differentiable domain"],
     },
     "C03": {
         "families": [
-            fam("bcast-add", g(gen.fam_bcast_add), 150, 3000, rule="distinct (add|sub, broadcast-compatible shape pair with a != b, uses in 1..4): gradient dimensions and values (= sum of the seed over the broadcast positions) of both operands"),
+            fam("bcast-add", g(gen.fam_bcast_add), 150, 3000, view="values", rule="distinct (add|sub, broadcast-compatible shape pair with a != b, uses in 1..4): gradient dimensions and values (= sum of the seed over the broadcast positions) of both operands"),
             fam("ewise-grad-shape", g(gen.fam_ewise, grads=True), 100, 2000, view="shape", rule="distinct (op, shape pair, uses): only the *dimensions* of the stored gradients are compared"),
             fam("dag-shape", g(gen.fam_dag), 150, 3000, view="shape", rule="distinct random programs; only the dimensions of every stored gradient are compared"),
         ],
@@ -53,29 +53,29 @@ PROPS = {
     },
     "C04": {
         "families": [
-            fam("ewise", g(gen.fam_ewise), 400, 20000, rule="distinct ordered shape pairs (exhaustive rank<=3 size<=2 quick / rank<=4 size<=3 thorough, plus random rank<=5 size<=5); compatible pairs run add, sub, mul, div, axpy; incompatible pairs one op each"),
-            fam("ewise-float", g(gen.fam_ewise, mode="float"), 150, 3000, mode="float", rule="as above on arbitrary doubles"),
+            fam("ewise", g(gen.fam_ewise), 400, 20000, view="values", rule="distinct ordered shape pairs (exhaustive rank<=3 size<=2 quick / rank<=4 size<=3 thorough, plus random rank<=5 size<=5); compatible pairs run add, sub, mul, div, axpy; incompatible pairs one op each"),
+            fam("ewise-float", g(gen.fam_ewise, mode="float"), 150, 3000, mode="float", view="values", rule="as above on arbitrary doubles"),
         ],
         "assumptions": [F64_NOTE],
     },
     "C05": {
         "families": [
-            fam("matmul", g(gen.fam_matmul), 300, 8000, rule="distinct (leading dims a, leading dims b, m, k, n, ta, tb, additive-term form), rank-1 forms, inner mismatches"),
-            fam("matmul-float", g(gen.fam_matmul, mode="float"), 60, 1500, mode="float", rule="as above on arbitrary doubles"),
+            fam("matmul", g(gen.fam_matmul), 300, 8000, view="values", rule="distinct (leading dims a, leading dims b, m, k, n, ta, tb, additive-term form), rank-1 forms, inner mismatches"),
+            fam("matmul-float", g(gen.fam_matmul, mode="float"), 60, 1500, mode="float", view="values", rule="as above on arbitrary doubles"),
         ],
         "assumptions": [F64_NOTE],
     },
     "C06": {
         "families": [
-            fam("conv", g(gen.fam_conv), 300, 4000, rule="distinct (batch, depth, rows, cols, count, frows, fcols, sr, sc); refusals"),
-            fam("conv-float", g(gen.fam_conv, mode="float"), 60, 800, mode="float", rule="as above on arbitrary doubles"),
+            fam("conv", g(gen.fam_conv), 300, 4000, view="values", rule="distinct (batch, depth, rows, cols, count, frows, fcols, sr, sc); refusals"),
+            fam("conv-float", g(gen.fam_conv, mode="float"), 60, 800, mode="float", view="values", rule="as above on arbitrary doubles"),
         ],
         "assumptions": [F64_NOTE],
     },
     "C07": {
         "families": [
-            fam("reduce", g(gen.fam_reduce), 0, 0, rule="every shape rank<=3 (quick) / rank<=4 (thorough) size<=3: every k in 0..rank+1, reshape to every 1/2-factor shape and a wrong count, every exact element map"),
-            fam("reduce-float", g(gen.fam_reduce, mode="float"), 0, 0, mode="float", rule="as above with ln, exp, recip, sigmoid, softmax, real exponents"),
+            fam("reduce", g(gen.fam_reduce), 0, 0, view="values", rule="every shape rank<=3 (quick) / rank<=4 (thorough) size<=3: every k in 0..rank+1, reshape to every 1/2-factor shape and a wrong count, every exact element map"),
+            fam("reduce-float", g(gen.fam_reduce, mode="float"), 0, 0, mode="float", view="values", rule="as above with ln, exp, recip, sigmoid, softmax, real exponents"),
         ],
         "assumptions": [F64_NOTE, "softmax rows sum to one only up to rounding in floats; the oracle compares with exp(x)/sum exp(x) under the float tolerance"],
     },
@@ -85,6 +85,8 @@ PROPS = {
             fam("optim", g(gen.fam_optim), 60, 1500, view="none", kinds=["immut"], rule="distinct parameter lists; older clones of updated parameters re-read"),
             fam("train", g(gen.fam_train), 40, 800, view="none", kinds=["immut"], rule="distinct training runs with >= 2 iterations"),
             fam("transparent", g(gen.fam_transparent), 60, 1500, view="none", kinds=["immut"], rule="programs with clones, views, drops and re-binding"),
+            fam("alias", g(gen.fam_alias), 200, 6000, view="none", kinds=["immut"], rule="distinct histories around shared storage: reshaped views, clones, gradients fetched from cells, seeds passed as clones, followed by further passes and optimizer updates"),
+            fam("alias-float", g(gen.fam_alias, mode="float"), 60, 1500, mode="float", view="none", kinds=["immut"], rule="as above with the non-ring operations"),
         ],
         "assumptions": [F64_NOTE, BYVALUE_NOTE, "Rust's guarantee that a shared Rc<Vec<_>> without interior mutability cannot be written in safe code"],
     },
@@ -105,8 +107,8 @@ PROPS = {
     },
     "C11": {
         "families": [
-            fam("customlog", g(gen.fam_customlog), 150, 5000, view="log", rule="exhaustive Array::op DAGs up to 3 (quick) / 4 (thorough) nodes, random ones up to 40 nodes; the invocation log of the user closures (label, received delta) is compared as a sorted list"),
-            fam("chains", g(gen.fam_chains), 0, 0, view="log", rule="self-product chains of user operations to depth 45 (quick) / 60 (thorough): 2^depth paths"),
+            fam("customlog", g(gen.fam_customlog), 150, 5000, view="log", kinds=["impl-vs-spec", "impl-vs-model", "model-vs-spec", "timeout", "crash", "length"], rule="exhaustive Array::op DAGs up to 3 (quick) / 4 (thorough) nodes, random ones up to 40 nodes; the invocation log of the user closures (label, received delta) is compared as a sorted list"),
+            fam("chains", g(gen.fam_chains), 0, 0, view="log", kinds=["impl-vs-spec", "impl-vs-model", "model-vs-spec", "timeout", "crash", "length"], rule="self-product chains of user operations to depth 45 (quick) / 60 (thorough): 2^depth paths"),
         ],
         "assumptions": [F64_NOTE, "user closures are lawful"],
     },
@@ -125,17 +127,17 @@ PROPS = {
     },
     "C14": {
         "families": [
-            fam("train", g(gen.fam_train), 120, 3000, rule="distinct (layer stack, activations, cost, batch, iterations >= 2)"),
-            fam("train-float", g(gen.fam_train, mode="float"), 80, 2000, mode="float", rule="sigmoid / softmax / cross-entropy included"),
+            fam("train", g(gen.fam_train), 120, 3000, view="values", rule="distinct (layer stack, activations, cost, batch, iterations >= 2)"),
+            fam("train-float", g(gen.fam_train, mode="float"), 80, 2000, mode="float", view="values", rule="sigmoid / softmax / cross-entropy included"),
         ],
         "assumptions": [F64_NOTE],
     },
     "C15": {
         "families": [
-            fam("forward", g(gen.fam_train, forward_only=True), 150, 4000, rule="distinct layer stacks evaluated layer by layer"),
-            fam("forward-float", g(gen.fam_train, mode="float", forward_only=True), 100, 2500, mode="float", rule="all activations"),
-            fam("train", g(gen.fam_train), 40, 1000, rule="loss values and model forward"),
-            fam("train-float", g(gen.fam_train, mode="float"), 40, 1000, mode="float", rule="both costs"),
+            fam("forward", g(gen.fam_train, forward_only=True), 150, 4000, view="values", rule="distinct layer stacks evaluated layer by layer"),
+            fam("forward-float", g(gen.fam_train, mode="float", forward_only=True), 100, 2500, mode="float", view="values", rule="all activations"),
+            fam("train", g(gen.fam_train), 40, 1000, view="values", rule="loss values and model forward"),
+            fam("train-float", g(gen.fam_train, mode="float"), 40, 1000, mode="float", view="values", rule="both costs"),
         ],
         "assumptions": [F64_NOTE],
     },
@@ -152,6 +154,7 @@ PROPS = {
     },
     "C18": {
         "families": [
+            fam("release-float", g(gen.fam_release, mode="float"), 150, 4000, mode="float", view="rc", rule="as release, with every operation (div, ln, exp, reciprocal, sigmoid, softmax, powf)"),
             fam("release", g(gen.fam_release), 200, 6000, view="rc", rule="distinct programs: build, pass(es), drop every derived result in random order, then Vec::from on every leaf; Rc owner counts compared after every drop"),
             fam("train", g(gen.fam_train), 60, 1500, view="rc", rule="training runs: the previous iteration's input is owned again after the next forward"),
             fam("history", g(gen.fam_history), 60, 1500, view="rc", rule="owner counts after every pass"),
@@ -167,8 +170,8 @@ PROPS = {
             fam("reduce-f32", g(gen.fam_reduce), 0, 0, variant="f32", baseline_variant="f64", rule="every shape / k / map, exact channel"),
             fam("dag-f32", g(gen.fam_dag), 80, 2000, variant="f32", baseline_variant="f64", rule="distinct programs with gradients, exact channel"),
             fam("ewise-grad-f32", g(gen.fam_ewise, grads=True), 40, 1000, variant="f32", baseline_variant="f64", rule="gradients of broadcast pairs"),
-            fam("reduce-f32-float", g(gen.fam_reduce, mode="f32"), 0, 0, mode="f32", variant="f32", rule="non-ring maps against Lean Float32 with tolerance 2e-4"),
-            fam("dag-f32-float", g(gen.fam_dag, mode="f32"), 60, 1500, mode="f32", variant="f32", rule="random programs against Lean Float32"),
+            fam("reduce-f32-float", g(gen.fam_reduce, mode="f32"), 0, 0, mode="f32", variant="f32", baseline_variant="f64", rule="non-ring maps against Lean Float32 with tolerance 2e-4"),
+            fam("dag-f32-float", g(gen.fam_dag, mode="f32"), 60, 1500, mode="f32", variant="f32", baseline_variant="f64", rule="random programs against Lean Float32"),
         ],
         "assumptions": ["the 'within single-precision rounding' half is validated by differential runs only (no IEEE rounding theory in Lean here): labelled partial",
                         "exact channel on the f32 build: integers below 2^24, where f32 arithmetic is exact"],
